@@ -34,7 +34,7 @@ def explore(res, rng, n, exhaustive=None):
     for _ in range(n // 3):
         h, _s = core.gen_history(rng, maxlen=20, closed=(rng.random() < 0.4))
         if max(abs(v) for v in h) < 4096:
-            cases.append((h, rng.choice([-1, -1, -2, -3])))
+            cases.append((h, rng.choice([-1, -1, -2, -3, -6, -7])))
     for h, s in cases:
         cyc.hist_stats(res, h)
     # the number of digits is read from globalConfig at call time: change it and compare each table with its own cycle list
@@ -73,7 +73,7 @@ def malformed(res):
 
 def run(tier, seed):
     res = core.Result(PID, tier, seed)
-    res.rule = ('random tie-rich histories (40% closed; dyadic grids compared exactly with the model, decimal grids 10^-1..10^-3 through the predicates only) x seven counters x both output modes; non-trivial = at least one '
+    res.rule = ('random tie-rich histories (40% closed; dyadic grids compared exactly with the model, decimal grids 10^-1..10^-7 through the predicates only) x seven counters x both output modes; non-trivial = at least one '
                 'interior reversal; distinct by (counter, value tuple)')
     core.prove(res, PID, MODULES, clean=(tier == 'thorough'))
     rng = random.Random(seed)
